@@ -33,6 +33,24 @@ Theorem C14_modified_is_discarded : forall add0 erase0 add1 erase1 reserve get f
   retrieve_round (Some (add0, erase0)) (Some (add1, erase1)) reserve get fuel = None.
 Proof. exact retrieve_round_stale. Qed.
 
+(* the outer retry loop: whatever happened in earlier rounds, the result is that of ONE round in which both info
+   answers arrived, no timestamp advanced and the walk succeeded under one reservation; earlier rounds are discarded
+   entirely (no mixture of repository states) *)
+Theorem C14_result_is_one_round : forall rounds fuel m, retrieve rounds fuel = Some m ->
+  exists pre r post add0 erase0 add1 erase1 rid,
+    rounds = pre ++ r :: post /\
+    Forall (fun q => retrieve_round (rd_info0 q) (rd_info1 q) (rd_reserve q) (rd_get q) fuel = None) pre /\
+    rd_info0 r = Some (add0, erase0) /\ rd_info1 r = Some (add1, erase1) /\ add1 <= add0 /\ erase1 <= erase0 /\
+    rd_reserve r tt = Some rid /\ walk (rd_get r) rid 0 fuel [] = WOk m.
+Proof. exact retrieve_is_one_round. Qed.
+(* and a repository that holds still for one round is returned completely by that round *)
+Theorem C14_quiet_round_is_complete : forall pre recs info reserve add erase rid post,
+  wf_repo recs -> walkable recs -> info = Some (add, erase) -> reserve tt = Some rid ->
+  Forall (fun q => retrieve_round (rd_info0 q) (rd_info1 q) (rd_reserve q) (rd_get q) (length recs + 1) = None) pre ->
+  retrieve (pre ++ {| rd_info0 := info; rd_info1 := info; rd_reserve := reserve; rd_get := serve_sdr recs |} :: post)
+           (length recs + 1) = Some (full_records recs).
+Proof. exact retrieve_quiet_round. Qed.
+
 (* the faithful model refutes the statement without [walkable]: a later record with ID 0000h sends the walk
    back to the first record for ever (in the Go code: until the caller's context expires) *)
 Theorem C14_id_zero_later_refuted : forall rid f acc, walk (serve_sdr cx_repo) rid 0 f acc = WOutOfFuel.
